@@ -27,6 +27,11 @@ type LifeScenario struct {
 	Clients []ClientSpec   `json:"clients"`
 	// Cancels: some controller cancels a serving context (connections may be cut at any time).
 	Cancels bool `json:"cancels,omitempty"`
+	// CancelHow: "" — the serving contexts are standard cancel contexts;
+	// "sim-cancel" / "expire" — they are simulator contexts from which the library
+	// derives its own, ended by cancellation / like a deadline that passes
+	// (Err() = context.DeadlineExceeded, which is also a timeout error).
+	CancelHow string `json:"cancel_how,omitempty"`
 	// Stalled: the kernel injects stalls (Config.StallPct): oracles that rely on
 	// code taking no simulated time are not evaluated.
 	Stalled bool `json:"stalled,omitempty"`
@@ -62,6 +67,18 @@ func (s *LifeScenario) Setup(k *sim.Kernel) {
 	svc, _ := buildService(s.Service, s.Scripts)
 	s.svc = svc
 	for range s.Rounds {
+		if s.CancelHow != "" {
+			// a simulator context: the library derives standard contexts from it, and
+			// it can end like a deadline that passes (Err = DeadlineExceeded)
+			d := k.NewCtx()
+			s.ctxs = append(s.ctxs, d)
+			if s.CancelHow == "expire" {
+				s.cancels = append(s.cancels, d.Expire)
+			} else {
+				s.cancels = append(s.cancels, d.Cancel)
+			}
+			continue
+		}
 		ctx, cancel := context.WithCancel(context.Background())
 		s.ctxs = append(s.ctxs, ctx)
 		s.cancels = append(s.cancels, cancel)
@@ -792,6 +809,37 @@ func genShutdownTrigger(g *Gen) string {
 	}
 }
 
+// genServeCtx (C17): the context given to Listen / DoListen ends — cancelled, or
+// like a deadline that passes — while accepted connections are idle, mid-frame
+// or busy: the per-connection reads return, the connections end, and the
+// serving call returns once it is shut down.
+func genServeCtx(g *Gen, prop string, tier string) *LifeScenario {
+	s := &LifeScenario{Prop: prop, Config: genConfig(g), Scripts: map[int]Script{}, Cancels: true}
+	s.Service = genService(g, 1+g.IntN(2), "unix:@servectx")
+	s.Rounds = []RoundSpec{{UseBind: g.Pct(50)}}
+	s.CancelHow = g.Pick("expire", "expire", "sim-cancel", "")
+	nClients := 1 + g.IntN(3)
+	s.Ctl = [][]CtlOp{{{Wait: g.Pick(sf("accepted:%d", nClients), sf("accepted:%d,quiescent", nClients), sf("accepted:%d,sleep:%d", nClients, g.IntN(3000)), "accepted:1"), Op: "cancel", Arg: 0}}}
+	cid := 0
+	for c := 0; c < nClients; c++ {
+		cs := genLifeClient(g, s, &cid, true)
+		if g.Pct(40) {
+			// mid-frame when the context ends
+			for len(cs.Frames) < 2 {
+				cid++
+				cs.Frames = append(cs.Frames, FrameSpec{Cid: cid, Text: callFrame("org.varlink.service.GetInfo", "", false, false, false, nil)})
+			}
+			cs.Cuts, cs.PauseUs = nil, nil
+			cs.StopAfter = len(cs.Frames[0].Text) + 1 + 1 + g.IntN(len(cs.Frames[1].Text)-1)
+		}
+		// they stay for three quiet points: the end of the context has settled
+		// before the clients go away by themselves
+		cs.End, cs.QuietPoints = "close", 3
+		s.Clients = append(s.Clients, cs)
+	}
+	return s
+}
+
 func genC14(seed uint64, tier string) Scenario {
 	g := NewGen(seed, 0xC14)
 	s := &LifeScenario{Prop: "C14", Config: genConfig(g), Scripts: map[int]Script{}}
@@ -875,6 +923,9 @@ func genC14(seed uint64, tier string) Scenario {
 			cs.NoRead = true
 		}
 		s.Clients = append(s.Clients, cs)
+	}
+	if s.Cancels {
+		s.CancelHow = g.Pick("", "", "expire", "sim-cancel")
 	}
 	if s.Cancels && g.Pct(40) {
 		// a connection that is mid-frame when the context is cancelled: one complete
